@@ -35,6 +35,16 @@ mod openraft {
     pub mod storage;
 }
 mod drv;
+/// distributed-walrus' metadata state machine and the C18/C20 command generators (clause (b) of C20)
+#[path = "/repo/distributed-walrus/src/metadata.rs"]
+pub mod metadata;
+mod dw {
+    #[path = "/repo/distributed-walrus/src/controller/types.rs"]
+    pub mod wal_types;
+}
+#[path = "../../dist/src/meta.rs"]
+mod meta;
+mod snap;
 
 use crate::openraft::types::{AppEntry, AppTypeConfig};
 use ::openraft::storage::{IOFlushed, RaftLogStorage};
@@ -89,7 +99,7 @@ pub fn hash(b: &[u8]) -> u64 {
     engine::splitmix(h)
 }
 
-fn block_on<T: 'static>(f: impl std::future::Future<Output = T> + 'static) -> T {
+pub fn block_on<T: 'static>(f: impl std::future::Future<Output = T> + 'static) -> T {
     let slot = std::rc::Rc::new(std::cell::RefCell::new(None));
     let s2 = slot.clone();
     tokio::rt::spawn_named("main", async move {
@@ -293,11 +303,31 @@ fn main() {
                 i += 1;
             }
             let seed: u64 = std::env::var("VERIF_SEED").ok().and_then(|s| s.parse().ok()).unwrap_or(0);
+            if args.get(2).map(|s| s.as_str()) == Some("C20") {
+                std::process::exit(snap::run_c20b(tier, seed));
+            }
             std::process::exit(drv::run_c21(tier, seed));
         }
         Some("replay") => {
             let s = std::fs::read_to_string(&args[2]).expect("read replay file");
             let body: serde_json::Value = serde_json::from_str(&s).expect("parse");
+            if body.get("kind").and_then(|k| k.as_str()) == Some("c20-adapter") {
+                match snap::replay(&body) {
+                    Ok(Some(m)) => {
+                        println!("VIOLATION property=C20 replay={}", args[2]);
+                        println!("  {}", m);
+                        std::process::exit(1)
+                    }
+                    Ok(None) => {
+                        println!("OK property=C20 replay passes");
+                        std::process::exit(0)
+                    }
+                    Err(e) => {
+                        println!("INCONCLUSIVE property=C20 {}", e);
+                        std::process::exit(2)
+                    }
+                }
+            }
             match drv::replay(&body) {
                 Ok(Some(m)) => {
                     println!("VIOLATION property=C21 replay={}", args[2]);
